@@ -31,7 +31,8 @@ pub fn write_user_autocorrect(root: &std::path::Path, m: &HashMap<String, String
 fn specs() -> Vec<(CfgSpec, bool)> {
     let p = |o: u16| CfgSpec::new(Lay::Phonetic, O_PSUGG | o);
     vec![
-        (p(0), false), (p(O_ENG), false), (p(O_SQ), false), (p(O_ENG | O_SQ), false), (p(O_ANSI), false), (p(O_ENG | O_SQ | O_ANSI), false),
+        // (options that only the fixed-layout method reads ride along in three of them: they must not matter)
+        (p(0), false), (p(O_ENG | O_FIXED_ONLY), false), (p(O_SQ), false), (p(O_ENG | O_SQ), false), (p(O_ANSI | O_FSUGG | O_TKAR | O_NUMPAD), false), (p(O_ENG | O_SQ | O_ANSI | O_FIXED_ONLY), false),
         (p(O_ENG), true), (p(O_SQ), true),
     ]
 }
